@@ -140,7 +140,7 @@ def handle : List String → String
         | some l => showBool (jailAllows (some l) url)
         | none => "bad-op"
   | ["jtrace", variant, ops] =>
-    match (ops.splitOn ";").mapM parseJOp with
+    match (if ops == "-" then some [] else (ops.splitOn ";").mapM parseJOp) with
     | none => "bad-op"
     | some l =>
       let show_ (r : List (Tid × Bool)) : String :=
